@@ -40,9 +40,10 @@ MODELS = [
     "AD:neo_hooke", "AD:mooney_rivlin", "AD:yeoh", "AD:ogden", "AD:saint_venant_kirchhoff", "AD:arruda_boyce", "AD:third_order_deformation",
     "AD:extended_tube", "AD:blatz_ko", "AD:lopez_pamies", "AD:storakers", "AD:anssari_benam_bucchi", "AD:alexander", "AD:miehe_goektepe_lulei",
     "ThreeField", "NearlyIncompressible", "NearlyIncompressibleAD", "Composite",
+    "MAD:total_lagrange", "MAD:updated_lagrange", "MAD:morph", "LinearElasticOrthotropic",
 ]
 JAX_MODELS = ["JAX:neo_hooke", "JAX:mooney_rivlin", "JAX:yeoh", "JAX:third_order_deformation", "JAX:blatz_ko", "JAX:storakers", "JAX:extended_tube", "JAX:miehe_goektepe_lulei"]
-HISTORY = ("OgdenRoxburgh", "OgdenRoxburghAD", "Plastic", "Visco")
+HISTORY = ("OgdenRoxburgh", "OgdenRoxburghAD", "Plastic", "Visco", "MAD:morph")
 MIXED = ("ThreeField", "NearlyIncompressible", "NearlyIncompressibleAD")
 
 
@@ -72,6 +73,14 @@ def draw_model(r, name):
         return {"name": name, "p": {"mu": mu, "bulk": bulk}}
     if name == "NearlyIncompressibleAD":
         return {"name": name, "p": {"fun": "mooney_rivlin", "C10": round(mu / 3, 4), "C01": round(mu / 6, 4), "bulk": bulk}}
+    if name in ("MAD:total_lagrange", "MAD:updated_lagrange"):
+        return {"name": name, "p": {"mu": mu, "bulk": bulk}}
+    if name == "MAD:morph":
+        base = [0.039, 0.371, 0.174, 2.41, 0.0094, 6.84, 5.65, 0.244]
+        return {"name": name, "p": {"p": [round(b * r.uniform(0.8, 1.2), 5) for b in base], "bulk": round(r.choice([5.0, 50.0]), 3)}}
+    if name == "LinearElasticOrthotropic":
+        E = [rf(r, 1.0, 5.0) for _ in range(3)]
+        return {"name": name, "p": {"E": E, "nu": [rf(r, 0.05, 0.25) for _ in range(3)], "G": [rf(r, 0.3, 1.5) for _ in range(3)]}}
     if name.startswith("JAX:"):
         d = draw_model(r, "AD:" + name[4:])
         return {"name": name, "p": d["p"]}
@@ -150,6 +159,30 @@ def build(spec):
     p = dict(spec.get("p", {}))
     if name == "Volumetric":
         return fem.Volumetric(bulk=p["bulk"], parallel=bool(spec.get("parallel")))
+    if name == "LinearElasticOrthotropic":
+        return fem.LinearElasticOrthotropic(E=p["E"], nu=p["nu"], G=p["G"])
+    if name == "MAD:morph":
+        return fem.MaterialAD(fem.morph, p=p["p"], nstatevars=13) & fem.Volumetric(bulk=p["bulk"])
+    if name in ("MAD:total_lagrange", "MAD:updated_lagrange"):
+        import tensortrax.math as tm
+
+        if name == "MAD:total_lagrange":
+
+            @fem.total_lagrange
+            def second_piola(F, mu, bulk):
+                C = F.T @ F
+                J = tm.linalg.det(F)
+                return mu * tm.special.dev(tm.linalg.det(C) ** (-1 / 3) * C) @ tm.linalg.inv(C) + bulk * (J - 1) * J * tm.linalg.inv(C)
+
+            return fem.MaterialAD(second_piola, mu=p["mu"], bulk=p["bulk"])
+
+        @fem.updated_lagrange
+        def kirchhoff(F, mu, bulk):
+            J = tm.linalg.det(F)
+            b = F @ F.T
+            return mu * tm.special.dev(J ** (-2 / 3) * b) + bulk * (J - 1) * J * tm.base.eye(b)
+
+        return fem.MaterialAD(kirchhoff, mu=p["mu"], bulk=p["bulk"])
     if name.startswith("JAX:"):
         import felupe.constitution.jax as fj
 
